@@ -51,8 +51,11 @@ Print Assumptions C19_extend_noop_identity.
    does not have yet.  Side conditions: A does not extend a type that only B defines; B's new types
    do not carry a conventional root name (build_ast_schema would adopt such a type as a root,
    extend_schema does not).
-   Partial: directive extensions and directive-only type extensions (@specifiedBy/@oneOf on
-   `extend`) are not modelled. *)
+   Scalar extensions may carry @specifiedBy (a non-empty URL of a later extension wins, an
+   extension without it keeps the URL), directive-only extensions of every kind are covered
+   (@oneOf on an extension has no effect in either function; other applied directives are not part
+   of a schema).
+   Partial: directive extensions (`extend directive @d @deprecated`) are not modelled. *)
 Theorem C19_extend_hom_partial : forall A B sA,
   build A = Some sA ->
   schema_defs B = [] ->
@@ -107,6 +110,14 @@ Example C19_example_witness :
   /\ let b := mkSchema None (Some nQuery) None None [ex_Q] [] in
      map c_kind (diff natural_leb ex_s b) = [TYPE_REMOVED]
      /\ witness natural_leb (mkChange TYPE_REMOVED [[65]]) ex_s b = true.
+Proof. repeat split; reflexivity. Qed.
+
+(* a scalar with a URL keeps it through an extension without @specifiedBy; a later URL wins *)
+Example C19_example_scalar_ext :
+  let S u := mkType 0 [83] None [] [] [] [] [] u false in
+  apply_exts [S None] (S (Some [117])) = S (Some [117])
+  /\ apply_exts [S (Some [118]); S None] (S (Some [117])) = S (Some [118])
+  /\ apply_exts [S (Some [])] (S (Some [117])) = S (Some [117]).
 Proof. repeat split; reflexivity. Qed.
 
 Example C19_example_extend :
